@@ -207,6 +207,43 @@ class Run:
         return out + self.extra
 
     # ---- deciding ---------------------------------------------------------------------------------------------------
+    def static_closure(self, q0):
+        """functions of /repo reachable from q0 through calls that resolve without type information: self.m(...) / cls.m(...) on the function's
+        own class (and its bases), Name(...) of a module-level function or class (its __init__ / __new__), Class.m(...)"""
+        import ast as _ast
+        repo = self.repo
+        seen, todo = [], [q0]
+        while todo:
+            q = todo.pop()
+            if q in seen or q not in repo.qual:
+                continue
+            seen.append(q)
+            mod = q.split(".")[0]
+            cls = ".".join(q.split(".")[:2]) if repo.has_class(".".join(q.split(".")[:2])) else None
+            for n in _ast.walk(repo.qual[q]):
+                if not isinstance(n, _ast.Call):
+                    continue
+                f = n.func
+                cands = []
+                if isinstance(f, _ast.Attribute) and isinstance(f.value, _ast.Name):
+                    if f.value.id in ("self", "cls") and cls:
+                        for k in repo.cls(cls)["mro"]:
+                            cands.append(f"{k}.{f.attr}")
+                            cands.append(f"{k}.{f.attr}.setter")
+                    elif repo.has_class(f"{mod}.{f.value.id}"):
+                        for k in repo.cls(f"{mod}.{f.value.id}")["mro"]:
+                            cands.append(f"{k}.{f.attr}")
+                elif isinstance(f, _ast.Name):
+                    cands.append(f"{mod}.{f.id}")
+                    if repo.has_class(f"{mod}.{f.id}"):
+                        for k in repo.cls(f"{mod}.{f.id}")["mro"]:
+                            cands += [f"{k}.__init__", f"{k}.__new__"]
+                for c in cands:
+                    if c in repo.qual and c not in seen:
+                        todo.append(c)
+                        break
+        return sorted(seen)
+
     def pin_trusted(self):
         """A contract marked `trusted` on a function of /repo was accepted for the body that was read when the sidecar was written
         (trusted_bodies.json pins its hash).  When that body changes the trust no longer covers it: the contract is still used at call
@@ -219,15 +256,17 @@ class Run:
             q0 = q.split("#")[0].split("@")[0]
             if not getattr(c, "trusted", None) or q0 not in self.repo.qual or q in used or getattr(c, "fn_override", None) or q0.startswith("lemmas"):
                 continue
-            h = self.repo.body_hash(self.repo.qual[q0])
+            import hashlib
+            clo = self.static_closure(q0)
+            h = hashlib.sha256("".join(f"{x}:{self.repo.body_hash(self.repo.qual[x])};" for x in clo).encode()).hexdigest()[:16]
             self.trusted_pins[q0] = h
-            self.notes.setdefault("trusted_repo_functions", {})[q0] = {"body_sha": h, "pinned": pins.get(q0), "why": str(c.trusted)[:200]}
+            self.notes.setdefault("trusted_repo_functions", {})[q0] = {"closure_sha": h, "pinned": pins.get(q0), "closure": clo[:40], "why": str(c.trusted)[:200]}
             if os.environ.get("VERIF_PIN_TRUSTED"):
                 pins[q0] = h            # maintenance mode (tools/pin_trusted.sh, after auditing a changed body): never set by a registered command
                 continue
             if pins.get(q0) != h:
                 self.syntactic(f"{q0}:trusted-body-unchanged", "trust", False,
-                               f"body hash {h}, pinned {pins.get(q0, 'none')}: the trusted contract was accepted for another body", where=q0,
+                               f"hash {h} of the function and the helpers it calls ({len(clo)} bodies), pinned {pins.get(q0, 'none')}: the trusted contract was accepted for other text", where=q0,
                                meta={"clause": f"trusted: {str(c.trusted)[:160]}", "weak": True})
 
     def finish(self):
